@@ -7,11 +7,36 @@ CAB_NOTE = ("Trusted: z3 unsat answers; contract stubs for clingo / biodivine_ae
             "representative executed; path determinism of biobalm between observation points (default-deny proxies). "
             "Bounded: families of 2-4 variable networks named in the evidence; nothing is claimed outside them.")
 
+T_CAB = "concolic symbolic execution of the real Python with z3 (path classes + frontier exhaustion); counterexamples replayed on clean code"
 CHECKS = {
-    "C02": dict(engine="E-CAB", category="model_checking",
-                text="Concolic execution of the real expand_bfs/expand_dfs over a symbolic truth table: z3 decides, for every path class, that the produced diagram equals the hierarchy of percolated trap spaces for all networks of the class; exhaustive for all 2-variable networks, time-boxed (quick) / exhaustive (thorough) for all 3-variable networks.",
-                technique="concolic symbolic execution of the real Python with z3 (path classes + frontier exhaustion); counterexamples replayed on clean code",
-                design_ref="§3.2, §6 C02"),
+    "C01": dict(engine="E-CAB", category="model_checking", design_ref="§6 C01", technique=T_CAB,
+                text="A complete strategy with default settings (build, block, bfs, dfs, source-SCC, attractor-seed), then seeds of every expanded node: z3 decides over the symbolic truth table (REACH by repeated squaring, ATTR = terminal SCC) that every seed lies in an attractor inside its node and outside the node's successors and that every attractor has exactly one seed."),
+    "C05": dict(engine="E-CAB", category="model_checking", design_ref="§6 C05", technique=T_CAB,
+                text="A limited strategy with symbolic limits, completion by skip_remaining / skip_to_minimal on every stub / minimal-space expansion with skip_ignored, then seeds of every node: every seed in an attractor inside its node, every attractor at least once, exactly once if the network has no motif-avoidant attractor (SymNet predicate)."),
+    "C09": dict(engine="E-LIFT", category="translation_validation", design_ref="§3.1, §6 C09", technique="SMT (z3) equivalence of the ASP program emitted by the real code, lifted over a generic Petri net, with the trap-space definition for all networks and covers",
+                note="Trusted: z3; clingo's enumeration contract (subset-minimal/maximal models under domRec), validated on every representative of every E-CAB run; locality of rule emission (checked on random sub-nets each run). Bounded: n <= 4 variables.",
+                text="The real _create_clingo_constraints / fixed-point constraints / reduced-STG net surgery / model converters run on the generic net G_n; per-shape, per-avoid, per-source, per-ensure and per-retained rule sets are lifted with selector Booleans and z3 proves that the classical models of the emitted program are exactly the spaces of the definition, for all networks, covers, avoid lists, source lists and retained sets with n <= 3 (quick: + n=4 slice; thorough: n=4 full)."),
+    "C10": dict(engine="E-TV", category="translation_validation", design_ref="§3.4, §6 C10", technique="per-artefact SMT validation (z3 over all states) of the real code's Petri nets / restricted nets / percolated networks; restriction lifted over the generic net",
+                note="Trusted: z3; the independent 60-line expression parser; AEON's bnet parser reading the same text. (a),(c) are per model (215 repository models, all functions of <= 3 inputs); (b) is for all nets over G_n, n <= 3 (4 in thorough).",
+                text="(a) every update function of the repository models and every function of <= 3 inputs: z3 decides over all states that the emitted implicants equal f&!x / !f&x; (b) restrict_petrinet_to_subspace lifted over the generic net: all nets, subspaces and states; (c) percolate_network per model and node space: remaining variables and functions agree with the original on every state of the space."),
+    "C02": dict(engine="E-CAB", category="model_checking", design_ref="§3.2, §6 C02", technique=T_CAB,
+                text="Concolic execution of the real expand_bfs/expand_dfs over a symbolic truth table: z3 decides, for every path class, that the produced diagram equals the hierarchy of percolated trap spaces for all networks of the class; exhaustive for all 2-variable networks, time-boxed (quick) / exhaustive (thorough) for all 3-variable networks."),
+    "C03": dict(engine="E-CAB", category="model_checking", design_ref="§3.2, §6 C03", technique=T_CAB,
+                text="Every completing strategy (bfs, dfs, minimal-space +-skip, attractor-seed, block with all flag combinations, source-SCC) and limited strategies completed by skipping, optionally after a plain prefix call with symbolic limits: z3 decides per path class that the expanded leaves are exactly the inclusion-minimal trap spaces. U2 exhaustive for single strategies; D3/B21 (quick) and U3/B22/CH4/S2C2 (thorough) time-boxed."),
+    "C04": dict(engine="E-CAB", category="model_checking", design_ref="§3.2, §6 C04", technique=T_CAB,
+                text="Histories of plain expansion calls with symbolic start nodes, limits and targets; after every call the partial-diagram invariant is decided for the whole path class, and the continued full expansion is decided against the C02 hierarchy and compared with a fresh diagram."),
+    "C08": dict(engine="E-CAB", category="model_checking", design_ref="§3.2, §6 C08", technique=T_CAB,
+                text="Real compute_attractor_candidates (incl. greedy ASP optimisation, simulation minification, retained-set regeneration) on a symbolic node of a prefix history with the two option flags and the four numeric configuration fields as solver variables; z3 decides coverage of every attractor via REACH/ATTR over the symbolic truth table."),
+    "C13": dict(engine="E-CAB", category="model_checking", design_ref="§6 C13", technique=T_CAB + "; work budget watchdog per class",
+                text="Every public operation is executed on the representative of every path class under a generous wall budget; a representative that exceeds it is replayed with a time-out. Coarse mode: inside the opaque attractor region termination is per representative."),
+    "C14": dict(engine="E-CAB", category="model_checking", design_ref="§6 C14", technique=T_CAB,
+                text="Attractor queries on unexpanded nodes interleaved with every operation that gives a node successors; after every call the cached candidates/seeds of every node are decided against the definition relative to the node's current successors."),
+    "C15": dict(engine="E-CAB", category="model_checking", design_ref="§6 C15", technique=T_CAB,
+                text="Symbolic size/level/stack limits, symbolic configuration limits and a symbolic fault position (k-th ASP solver call raises): after the interrupted call the partial-diagram invariant is decided per class, nothing is cached after an error, and the resumed call equals an uninterrupted twin."),
+    "C16": dict(engine="E-CAB", category="model_checking", design_ref="§6 C16", technique=T_CAB + " (relational: twin diagram in the same run)",
+                text="A history with pickle round-trip / reclaim_node_data inserted is run next to a twin without it under the same symbolic parameters; every later observable must coincide. The solver supplies the network and parameter coverage (compared values are class-constant)."),
+    "C20": dict(engine="E-CAB", category="model_checking", design_ref="§6 C20", technique=T_CAB,
+                text="After every call of a symbolic history: depth = longest root path, ids contiguous, find_node exact for all 3^n spaces, is_subgraph/is_isomorphic = set inclusion/equality against a fresh full diagram; after build() the parsed summary lists every attractor of every network of the class exactly once with the right label."),
 }
 
 NA = {}
